@@ -229,6 +229,8 @@ def emit_unit(unit, outdir):
         ex.require_mangled(g)
         if gpre != 'UF':
             needed += [gpre, gpost]
+        elif gpost:
+            needed += [gpost]
     for p in needed:
         if p:
             ex.require_mangled(p)
@@ -247,6 +249,8 @@ def emit_unit(unit, outdir):
         if gpre == 'UF':
             decl, ctxt = uf_contract_text(ex.funcs[gcn], gcn)
             prelude += decl + '\n'
+            if gpost:   # ... that additionally satisfies the function's own (proved) postcondition
+                ctxt = contract_text(ex.funcs[gcn], None, gpost).replace('__CPROVER_assigns()', '').strip() + '\n' + ctxt
             ex.contracts[gcn] = ctxt
             uf_abstracted.append(ex.funcs[gcn]['qual'] + '::' + (ex.funcs[gcn]['name'] or ''))
         else:
